@@ -777,12 +777,45 @@ def _nnf(t, negate):
     return ("u", "!", t) if negate else t
 
 
+def rule_eq_all(rep, db):
+    seen = set()
+    for fn in db.fns("fcppt::math::detail::array_equal"):
+        ta = tuple(fn.get("targs") or [])
+        if ta in seen or not ta:
+            continue
+        seen.add(ta)
+        u = fn["_unit"]
+        key = "array_equal<%s>" % re.sub(r"fcppt::math::(detail::)?", "", ta[0])[:70]
+        m = re.search(r"static_storage<[^<>]*(?:<[^<>]*>)?[^<>]*,\s*(\d+)\s*>", ta[0])
+        if not m:
+            rep.broken("C17 EQ-ALL %s: the storage size cannot be read from the operand type" % key)
+            continue
+        n = int(m.group(1))
+        lams = [T.resolve_lambda(u, fn, c["args"][1]) for c in F.walk(fn.get("body"), into_lambdas=False)
+                if c.get("k") == "call" and (T.callee_qn(u, c) or "") in ("fcppt::algorithm::all_of", "fcppt::algorithm::loop_break", "fcppt::algorithm::loop") and len(c.get("args", [])) == 2]
+        lams = [l for l in lams if l is not None]
+        if len(lams) != 1:
+            rep.broken("C17 EQ-ALL %s at %s: the element comparison is not a closure handed to algorithm::all_of; this form is not followed" % (key, F.primary_site(fn)))
+            continue
+        try:
+            idx = sorted(int(str((o.get("targs") or ["x"])[0]).rstrip("uUlL")) for o in lams[0].get("ops", []))
+        except ValueError:
+            rep.broken("C17 EQ-ALL %s: element comparison instantiated without an index" % key)
+            continue
+        ok = idx == list(range(n))
+        (rep.ok if ok else rep.fail)("EQ-ALL", key, F.primary_site(fn), F.describe(fn)[:140],
+                                     **({"how": "indices 0..%d" % (n - 1)} if ok else
+                                        {"why": "the storage holds %d elements but the element comparison is instantiated for the indices %s: elements beyond them never take part in ==, while the hash covers them" % (n, idx)}))
+
+
 def main(rep, tier, only):
     db = load.load(tier, lib=False, drivers=["drv_compare", "drv_oev"])
     rep.extra.update(db.stats())
     rep.rule("ST-MIRROR", "strong_typedef operators apply the operator in their name to .get() of the operands in order", floor=20)
     rep.rule("DERIVED", "!=, >, <=, >= are derived from == / < in an accepted form", floor=15)
     rep.rule("EQ-COVER", "operator== reads every value component of the type on both operands", floor=10)
+    rep.rule("EQ-ALL", "math::detail::array_equal (== of vector, dim, matrix) compares every element of the STORAGE: one instantiation of the "
+                       "element comparison per storage index 0 .. N-1, N being the size of the static storage (rows x columns for a matrix)", floor=3)
     rep.rule("LT-COVER", "operator< reads the same component set as == on both operands", floor=4)
     rep.rule("EQ-FORM", "operator== of every value type is exactly the conjunction of its component equalities (truth table over the component "
                         "atoms; any other condition the expression consults is a free atom and must not change the result)", floor=8)
@@ -792,6 +825,7 @@ def main(rep, tier, only):
     rep.rule("OE-TABLE", "decision tables of optional ==, <, either ==", floor=3)
     acc = accessor_map(db)
     rule_lt_lex(rep, db)
+    rule_eq_all(rep, db)
     rule_eq_form(rep, db, acc)
     # ------------------------------------------------------------------ strong_typedef mirror
     seen = set()
